@@ -72,7 +72,7 @@ func TestVerifC09(t *testing.T) {
 	}
 	n := 50
 	if vhThorough() {
-		n = 800
+		n = 400
 	}
 	tune := func(g *vhsrvGen, b *vhsrvBackend) {
 		g.hostile = 0.45
